@@ -121,6 +121,14 @@ def main():
     else:
         jobs.sort(key=lambda j: (j[1] != "main", -j[3]))
 
+    # supporting validation of the environment model (DESIGN.md 3.4): thorough tier of the properties that name it
+    precheck = getattr(mod, "PRECHECK", None)
+    if precheck and tier == "thorough" and not a.only:
+        pc = subprocess.run([PY, "-m", precheck], cwd=HERE, capture_output=True, text=True)
+        print(pc.stdout.strip())
+        if pc.returncode != 0:
+            print(f"HARNESS-ERROR property={prop}: environment model validation failed")
+            sys.exit(2)
     print(f"[{prop}] tier={tier} harnesses={len(harnesses)} jobs={len(jobs)} workers={a.jobs}", flush=True)
     results = []
     with ThreadPoolExecutor(max_workers=a.jobs) as ex:
